@@ -16,7 +16,7 @@ C = {
  'C09': ('exploration', WIRE + ' (junk classes from the spec, bytes concretised by the harness incl. seeded random strings)', 'TLC supplies classes, instants and the expected effect (none); the byte space is sampled, not model-checked'),
  'C10': ('model_checking', ENG + '; ' + WIRE, 'every (operation, k, class) injection point TLC enumerates, on all protocol entry points; handle log and goroutine census checked by the observer'),
  'C11': ('model_checking', WIRE + '; Alloc.tla (allocator interleavings) and MatcherMC!C11_Design', 'shared-wire concurrency scenarios; every reported run must equal the design prediction for one wire run alone'),
- 'C12': ('model_checking', 'Bpf.tla: classic-BPF interpreter in TLA+ run by TLC on the instructions extracted from the working tree, exhaustively over the frame class space, against declarative reference predicates; sampled frames re-run on the real x/net/bpf VM; end-to-end filter on/off twins over the wire', 'exhaustive over the stated frame classes for 37 filter configurations'),
+ 'C12': ('model_checking', 'Bpf.tla: classic-BPF interpreter in TLA+ run by TLC on the instructions extracted from the working tree, exhaustively over the frame class space, against declarative reference predicates; sampled frames re-run on the real x/net/bpf VM; end-to-end filter on/off twins over the wire', 'exhaustive over the stated frame classes for 40 filter configurations'),
  'C16': ('model_checking', 'Result.tla document algebra checked exhaustively in small scope; TLC-enumerated documents built as real result.Results; the marshalled JSON validated by TLC (DocProps) and compared with the algebra', 'small-scope exhaustive; floats as 1/1000 integers with 1-unit tolerance'),
  'C17': ('model_checking', 'Result.tla (redaction relations) + TLC-enumerated boundary-address documents and wire scenarios through RunTraceroute / the HTTP handler, JSON validated by TLC', 'every private block boundary, mapped forms, with/without enrichment'),
  'C18': ('model_checking', 'Enrich.tla: cache state machine (TLC exhaustive, every operation sequence replayed on the real cache and its DNS user), provider scripts (10^3 replayed on publicip.GetPublicIP), enrichment documents', 'all operation sequences up to the stated length; all provider behaviour triples'),
